@@ -39,6 +39,10 @@ CONSTANTS
   TxtLens = {txt}
   TxtCounts = {txtn}
   BigLens = {big}
+  IdSel = {ids}
+  PadSel = {pads}
+  ZoneClsSel = {zcls}
+  MaxSel = {maxes}
 INVARIANT Emit
 CHECK_DEADLOCK FALSE
 """
@@ -54,7 +58,7 @@ def tset(xs):
 def gen_cfg(ctx, name, **kw):
     d = dict(opcodes=tset([0]), maxrecs=2, names=tset([2, 3, 4]), targets=tset([2, 4]), kinds=tset(["A", "NS"]),
              forms=tset(ALL_FORMS), edns=tset(["off"]), rcodes=tset([0]), bits=tset([256]), origins=tset([False]),
-             ttls="TtlOne", txt=tset([]), txtn=tset([1]), big=tset([]))
+             ttls="TtlOne", txt=tset([]), txtn=tset([1]), big=tset([]), ids=tset([4660]), pads=tset([0]), zcls=tset([1]), maxes=tset([65535]))
     d.update(kw)
     return ctx.cfg(name, GEN_CFG.format(**d))
 
@@ -82,8 +86,22 @@ def scripts_for(ctx, quick):
     # G2: header sweep: opcodes x flag words x rcodes (12-bit split) x EDNS states
     S += g("g2.cfg", opcodes=tset([0, 4, 5]), maxrecs=0, edns=tset(["off", "v0", "do", "opts", "v1"]),
            rcodes=tset([0, 1, 15, 16, 2561, 4095]), bits=tset([0, 256, 33920, 34736, 560]))
+    # G2b: boundary message ids (0 is what DoH/DoQ put on the wire), every opcode
+    S += g("g2b.cfg", opcodes=tset([0, 4, 5]), maxrecs=1, names=tset([2]), kinds=tset(["NS"]), targets=tset([4]),
+           edns=tset(["off", "do"]), ids=tset([0, 65535]), forms=tset(["add", "del-rrset"]))
+    # G2c: EDNS padding x extended rcode x EDNS version/flags/options (the padded OPT is rebuilt by the renderer)
+    S += g("g2c.cfg", opcodes=tset([0, 5]), maxrecs=1, names=tset([2]), kinds=tset(["A"]), edns=tset(["v0", "do", "opts", "v1"]),
+           rcodes=tset([0, 23, 4095]), pads=tset([16, 128]), forms=tset(["add"]), ids=tset([4660, 0]))
     # G3: dynamic updates: every RFC 2136 form
     S += g("g3.cfg", opcodes=tset([5]), names=tset([2, 4]), targets=tset([4]), kinds=tset(["A"] if quick else ["A", "NS"]))
+    # G3b: updates of a zone whose class is not IN (CH): class ANY/NONE forms must come back with the ZONE's class
+    S += g("g3b.cfg", opcodes=tset([5]), names=tset([2, 4]), targets=tset([4]), kinds=tset(["NS", "TXT"]), txt=tset([3]),
+           zcls=tset([3]), maxrecs=2 if not quick else 1)
+    S += g("g3c.cfg", opcodes=tset([5]), names=tset([2]), targets=tset([4]), kinds=tset(["NS"]), zcls=tset([3, 4]), maxrecs=2,
+           edns=tset(["off", "do"]))
+    # G8: low-level renderer under small budgets: an RRset that overflows is rolled back and is followed by record
+    #     sets sharing the rolled-back owner / suffixes (stale or missing table entries at the rollback point)
+    S += g("g8.cfg", names=tset([2, 3, 4]), targets=tset([3]), kinds=tset(["A", "NS"]), maxrecs=3, maxes=tset([40, 45, 56]))
     # G4: rendering relative to an origin
     S += g("g4.cfg", opcodes=tset([0, 5]), names=tset([2, 4, 5]), targets=tset([2, 5]), kinds=tset(["NS"]),
            origins=tset([True]), forms=tset(["add", "rrset-exists", "del-rr"]))
@@ -126,6 +144,9 @@ def run(ctx):
                 continue
             seen.add(key)
             i = len(seen)
+            if s[0]["max"] != 65535:
+                jobs.append(("s%d.low" % i, s, "low"))      # Message.to_wire clamps the limit to >= 512
+                continue
             jobs.append(("s%d.direct" % i, s, "direct"))
             if any(e.get("op") == "rr" and e["form"] != "plain" for e in s):
                 jobs.append(("s%d.builder" % i, s, "builder"))
